@@ -17,4 +17,8 @@ impl<'a> Context<'a> {
     pub fn waker(&self) -> (r: &Waker) ensures *r == self.spec_waker() { unimplemented!() }
 }
 pub enum Poll<T> { Ready(T), Pending }
+impl<T> Poll<T> {
+    pub fn is_pending(&self) -> (r: bool) ensures r == (*self is Pending) { match self { Poll::Pending => true, _ => false } }
+    pub fn is_ready(&self) -> (r: bool) ensures r == (*self is Ready) { match self { Poll::Ready(_) => true, _ => false } }
+}
 
